@@ -164,7 +164,7 @@ def trunc_points(spec, n, rng, data=None):
         k = spec["unicode"]
         if n < 4096:
             return list(range(n))
-        pts = set(range(max(0, n - 2048), n)) | set(range(min(n, 96)))
+        pts = set(range(max(0, n - spec.get("tail", 2048)), n)) | set(range(min(n, 96)))
         high = [i for i, b in enumerate(data or b"") if b >= 0x80]
         if len(high) > k:
             step = len(high) / float(k)
@@ -298,7 +298,8 @@ def run_memory(c):
             elif dmg[0] == "trunc_auto":   # first/last 24 bytes, 8192-boundaries +-1, fractions, random points
                 damages += [["trunc", n] for n in trunc_points({"auto": dmg[1]}, len(orig), random.Random(len(orig)))]
             elif dmg[0] == "trunc_u":      # last 2 KiB + around the multi-byte characters
-                damages += [["trunc", n] for n in trunc_points({"unicode": dmg[1]}, len(orig), random.Random(1), orig)]
+                damages += [["trunc", n] for n in trunc_points({"unicode": dmg[1], "tail": dmg[2] if len(dmg) > 2 else 2048},
+                                                               len(orig), random.Random(1), orig)]
             else:
                 damages.append(dmg)
         for dmg in damages:
